@@ -207,6 +207,113 @@ fn threads_part(run: &mut Run, n: usize, threads: usize) {
     }
 }
 
+/// The result may depend only on the input *text*: the same text parsed as a sub-slice at eight
+/// different addresses (offsets 0..8 into a buffer) must give the same image.
+fn placement_part(run: &mut Run, n: usize) {
+    let b = batch(run.seed ^ 0x51ace, n);
+    let mut st = Stats::default();
+    let mut fail = None;
+    'outer: for c in &b {
+        let src = c.input();
+        let p = parser(c.ext, c.conv);
+        let base = match guard(|| full_image(p, &src)) {
+            Ok(i) => i,
+            Err(_) => continue,
+        };
+        // variants of the tail matter too (the end of the input relative to alignment)
+        for pad in 0..8usize {
+            st.eval();
+            let mut buf = String::with_capacity(src.len() + 16);
+            buf.push_str(&"x".repeat(pad));
+            buf.push_str(&src);
+            let img = guard(|| full_image(p, &buf[pad..])).unwrap_or_else(|e| format!("panic:{e}"));
+            if img != base {
+                fail = Some((
+                    Violation::new("c18.depends-on-placement", format!("the same text parsed from a buffer at offset {pad} gives a different result\n there {}\n whole  {}\n input {src:?}", truncate(&img, 1200), truncate(&base, 1200))),
+                    serde_json::to_value(c).unwrap(),
+                ));
+                break 'outer;
+            }
+        }
+        st.nontrivial(&src);
+    }
+    st.sample(|| b[7].describe());
+    run.add_part("placement", "every input of a batch parsed as a sub-slice at offsets 0..8 of a buffer (different alignment of its start and end): the image must not depend on where the text lives; distinct = distinct input", st, false);
+    if let Some((v, case)) = fail {
+        run.fail("placement", v, case);
+    }
+}
+
+/// parse_with_options with a recipe-reference checker, concurrently from 16 threads
+fn options_part(run: &mut Run, n: usize) {
+    use cooklang::analysis::CheckResult;
+    use cooklang::ParseOptions;
+    let mut srcs: Vec<String> = batch(run.seed ^ 0x0b7, n).into_iter().filter(|c| c.ext == EXT_ALL).map(|c| c.input()).filter(|s| s.contains("@@")).collect();
+    srcs.push("Add @@tomato sauce{200%ml} and @@pesto{}.".to_string());
+    srcs.push("Use @@./sub/dough{} then @@missing{1}".to_string());
+    let p = parser(EXT_ALL, 1);
+    let image = |src: &str| -> String {
+        let opts = ParseOptions {
+            recipe_ref_check: Some(Box::new(|name: &str| {
+                // a checker that takes a moment, like a file system lookup
+                let mut x = 0u64;
+                for i in 0..20_000u64 {
+                    x = x.wrapping_mul(31).wrapping_add(i);
+                }
+                if name.len() % 2 == 0 || x == 1 {
+                    CheckResult::Error(vec!["not found".into()])
+                } else {
+                    CheckResult::Ok
+                }
+            })),
+            metadata_validator: None,
+        };
+        let res = p.parse_with_options(src, opts);
+        crate::c02::result_image(&res)
+    };
+    let base: Vec<String> = srcs.iter().map(|s| guard(|| image(s)).unwrap_or_else(|e| format!("panic:{e}"))).collect();
+    let mut st = Stats::default();
+    let results: Vec<Vec<(usize, String)>> = std::thread::scope(|s| {
+        let hs: Vec<_> = (0..16)
+            .map(|t| {
+                let (srcs, image) = (&srcs, &image);
+                s.spawn(move || {
+                    let mut out = vec![];
+                    for round in 0..6 {
+                        for k in 0..srcs.len() {
+                            let i = (k + t * 3 + round) % srcs.len();
+                            out.push((i, guard(|| image(&srcs[i])).unwrap_or_else(|e| format!("panic:{e}"))));
+                        }
+                    }
+                    out
+                })
+            })
+            .collect();
+        hs.into_iter().map(|h| h.join().unwrap()).collect()
+    });
+    let mut fail = None;
+    'outer: for (t, r) in results.iter().enumerate() {
+        for (i, img) in r {
+            st.eval();
+            if *img != base[*i] {
+                fail = Some((
+                    Violation::new("c18.thread-result-differs", format!("parse_with_options (recipe reference checker) on thread {t} differs from the same call made alone\n thread {}\n alone  {}\n input {:?}", truncate(img, 1200), truncate(&base[*i], 1200), srcs[*i])),
+                    serde_json::json!({"pieces": [srcs[*i]], "ext": EXT_ALL, "conv": 1}),
+                ));
+                break 'outer;
+            }
+        }
+    }
+    for s in &srcs {
+        st.nontrivial(s);
+    }
+    st.sample(|| json!(srcs[0]));
+    run.add_part("options", &format!("{} inputs with `@@recipe` ingredients parsed with parse_with_options and a slow recipe-reference checker by 16 threads, 6 rounds each, against the same calls made alone", srcs.len()), st, false);
+    if let Some((v, case)) = fail {
+        run.fail("options", v, case);
+    }
+}
+
 fn processes_part(run: &mut Run, n: usize) {
     let mut st = Stats::default();
     let exe = std::env::current_exe().expect("current exe");
@@ -275,6 +382,12 @@ pub fn run(tier: Tier) -> i32 {
     }
     if !run.failed() {
         threads_part(&mut run, tier.pick(240, 6000) as usize, 16);
+    }
+    if !run.failed() {
+        placement_part(&mut run, tier.pick(400, 20000) as usize);
+    }
+    if !run.failed() {
+        options_part(&mut run, tier.pick(300, 6000) as usize);
     }
     if !run.failed() {
         processes_part(&mut run, tier.pick(300, 6000) as usize);
